@@ -140,6 +140,20 @@ def cyc_idle_peer_garbage(sc, i):
     sc.apply(("m", c, "badlen"))
 
 
+def cyc_two_connections_same_instant(sc, i):
+    # a second connection's reader closes it (garbage) in the very instant the standing connection has traffic, in both orders
+    # (threads run in creation order, so both "closing connection older than the busy one" and the reverse are produced)
+    c = _fresh_accept(sc)
+    sc.apply(("m", c, "cer_p2"))
+    if i % 2 == 0:
+        sc.apply(("x", c, "badlen", sc.std, "dwr"))
+    else:
+        c2 = _fresh_accept(sc)
+        sc.apply(("m", c2, "cer_p0"))
+        sc.apply(("x", c, "badlen", c2, "dwr"))
+        sc.apply(("eof", c2))
+
+
 def cyc_conn_garbage(sc, i):
     c = _fresh_accept(sc)
     sc.apply(("m", c, "cer_p0"))
@@ -219,7 +233,7 @@ CYCLES = collections.OrderedDict([
     ("retransmitted-duplicate-rejected", cyc_retransmitted_duplicate), ("dial-socket-creation-fails", cyc_dial_no_descriptor),
     ("only-connection-of-a-peer-closed-by-peer", cyc_idle_peer_closes), ("only-connection-of-a-peer-after-DPR", cyc_idle_peer_dpr),
     ("only-connection-of-a-peer-no-common-application", cyc_idle_peer_no_common), ("only-connection-of-a-peer-reset", cyc_idle_peer_reset),
-    ("only-connection-of-a-peer-garbage", cyc_idle_peer_garbage),
+    ("only-connection-of-a-peer-garbage", cyc_idle_peer_garbage), ("garbage-and-traffic-on-two-connections-in-one-instant", cyc_two_connections_same_instant),
 ])
 
 SKIP_ATTRS = {"statistics", "counters", "statistics_history", "logger", "connection_logger", "stats_logger", "msg_dump", "avp_def",
@@ -276,11 +290,13 @@ def measure(sc):
     return {k: v for k, v in out.items()}
 
 
-def run_sequence(names, reps):
-    """Fresh node with the standing connection; each named cycle repeated `reps` times in turn; returns the measure."""
+def run_sequence(names, reps, policy=None):
+    """Fresh node with the standing connection; each named cycle repeated `reps` times in turn; returns the measure.
+    policy: thread kind that runs only when nothing else can (the kernel's second scheduling policy), or None."""
     sc = scenario.Scenario(CFG, max_socks=1, start_plan=["refused"], app_timeout=2)
     try:
         nw = sc.start()
+        nw.world.low_kind = policy
         # the persistent peer2 is unreachable unless a cycle plans another outcome for the next connect()
         plan = nw.world.connect_plan
         nw.world.on_connect = lambda sock: plan.popleft() if plan else "refused"
@@ -309,11 +325,12 @@ def run_sequence(names, reps):
 
 
 def work(args):
-    names, lo, hi = args
-    m_lo, f_lo = run_sequence(names, lo)
-    m_hi, f_hi = run_sequence(names, hi)
+    names, lo, hi = args[:3]
+    policy = args[3] if len(args) > 3 else None
+    m_lo, f_lo = run_sequence(names, lo, policy)
+    m_hi, f_hi = run_sequence(names, hi, policy)
     grown = {k: (m_lo.get(k, 0), m_hi.get(k, 0)) for k in set(m_lo) | set(m_hi) if m_lo.get(k, 0) != m_hi.get(k, 0)}
-    return names, lo, hi, grown, f_lo + f_hi, sum(m_hi.values())
+    return names, lo, hi, grown, f_lo + f_hi, sum(m_hi.values()), policy
 
 
 def run(tier):
@@ -322,6 +339,8 @@ def run(tier):
     names = list(CYCLES)
     lo, hi = (5, 40) if tier != "thorough" else (10, 100)
     jobs = [((n,), lo, hi) for n in names]
+    # every cycle also under the second scheduling policy: the I/O thread runs only when no other thread can
+    jobs += [((n,), lo, hi, "_handle_connections") for n in names]
     # every ordered pair of cycles: the second kind of activity must not resurrect growth left dormant by the first
     pairs = list(itertools.permutations(names, 2))
     jobs += [(p, 2, 6) for p in pairs]
@@ -333,10 +352,10 @@ def run(tier):
     distinct = set()
     results = common.pmap(work, jobs, chunksize=1)
     single_growth = {}      # cycle -> set of measure keys that grow when it is repeated alone
-    for names_, lo_, hi_, grown, fails, size in results:
+    for names_, lo_, hi_, grown, fails, size, pol_ in results:
         if len(names_) == 1:
             single_growth.setdefault(names_[0], set()).update(grown)
-    for names_, lo_, hi_, grown, fails, size in results:
+    for names_, lo_, hi_, grown, fails, size, pol_ in results:
         total_cycles += (lo_ + hi_) * len(names_)
         distinct.add(size)
         for k, (a, b) in sorted(grown.items()):
@@ -346,15 +365,15 @@ def run(tier):
                 key = f"growth:{k}:per-combination:{'+'.join(names_)}"
             else:
                 key = f"growth:{k}:per:{names_[0]}"
-            rep.add(Violation(key, f"sequence {'+'.join(names_)}: {k} = {a} after {lo_} repetitions, {b} after {hi_}",
-                              {"cycles": list(names_), "lo": lo_, "hi": hi_}))
+            rep.add(Violation(key, f"sequence {'+'.join(names_)}{' (I/O thread scheduled last)' if pol_ else ''}: {k} = {a} after {lo_} repetitions, {b} after {hi_}",
+                              {"cycles": list(names_), "lo": lo_, "hi": hi_, "policy": pol_}))
         for f in fails:
             rep.notes.append(f"simulated thread failed during {names_}: {f} (judged by C14, not here)")
     rep.sample({"cycles": names})
     rep.sample({"example_measure_keys": sorted(run_sequence(("inbound-request-answered",), 1)[0])[:25]})
     rep.cov.update({"states": len(jobs) * 2, "transitions": total_cycles, "traces_validated_against_impl": len(jobs) * 2,
                     "distinct_measures": len(distinct), "repetitions": [lo, hi],
-                    "explanation": "each of 25 complete cycles repeated N_lo and N_hi times on a fresh node (5/40 quick, 10/100 and 10/1000 thorough) and every ordered "
+                    "explanation": "each of 26 complete cycles repeated N_lo and N_hi times on a fresh node under both scheduling policies (5/40 quick, 10/100 and 10/1000 thorough) and every ordered "
                                    "pair of cycles repeated 2 and 6 times (thorough: also a VERIF_SEED-rotated third of all ordered triples, 2 and 4 times); the measure (sizes of all containers "
                                    "structurally reachable from node, peers, connections, applications except statistics and the bounded duplicate window; live "
                                    "threads; unclosed sockets; pipes) must be equal for both repetition counts"})
@@ -363,5 +382,5 @@ def run(tier):
 
 
 def replay(case):
-    names, lo, hi, grown, fails, size = work((tuple(case["cycles"]), case.get("lo", 2), case.get("hi", 5)))
+    names, lo, hi, grown, fails, size, pol = work((tuple(case["cycles"]), case.get("lo", 2), case.get("hi", 5), case.get("policy")))
     return [Violation(f"growth:{k}:per:{names[-1]}", f"{a} -> {b}") for k, (a, b) in grown.items()]
